@@ -34,6 +34,15 @@ What is proved here (kernel-checked, no bound on sizes, histories, runes, colour
   every cell a known blank with the style's background, cursor home).  Non-vacuity: `bDemo`, `bDirect` (xterm-256color), `bVt`
   (vt100: monochrome, padded, no civis, no OSC 8) — kernel-evaluated emulator grids.
 
+* **the bottom-right corner trick at the level of bytes** (`Lemmas/LayerBCorner.lean`): `sim_insertChar` — the simulation step for
+  `Cmd.insertChar` (`ich1` = `CSI @` = ICH on the emulator vs `ATerm.insertAt`) in the situation the trick creates;
+  `corner_trick_bytes` / `xl_corner_trick_bytes` — `goto (w-2,y); setPen s; put glyph; goto (w-2,y); ich1` from ANY represented
+  state puts the glyph with `penOf rc s` into the LAST column, cursor known in column `w-2`, no wrap pending, no complaint, for
+  every description with `CapsFx` (in particular `CapsOk` = the class without its no-corner-trick condition);
+  `cygwin_corner_bytes` — the database instance with no hypothesis on the terminal (`db_corner_caps`: cygwin is the one
+  corner-trick entry all of whose strings are in the class), `bCyg` — the model's whole Show on cygwin, kernel-evaluated.
+  NOT done: the history theorems for the four corner-trick entries (`draw_admits` still asks `c.Plain`).
+
 The generic theorems keep the suffix `_partial` because they are relative to `CfgB`; for the `xl_`/`db_` theorems what remains
 assumed / outside is:
   (1) `FitOk rc` — the colour-fitting function (go-colorful's nearest-colour search, an external function, parameter
@@ -60,6 +69,7 @@ assumed / outside is:
 import Tcell.Lemmas.LayerBWorld
 import Tcell.Lemmas.LayerBXterm
 import Tcell.Lemmas.LayerBXtermFx
+import Tcell.Lemmas.LayerBCorner
 import Tcell.Props.C01
 import Tcell.Props.C09
 namespace Tcell.Props.C01B
@@ -365,7 +375,7 @@ entries. -/
 theorem cfgB_of_xtermlike (hx : XtermLike rc.ti = true) (hd : rc.d = derive rc.ti) (hfit : FitOk rc)
     (hrw : RwOk c.rw) (hrwB : RwB c.rw) (hp : Utf8Payload c) (hpl : c.Plain) (hh : c.hasHide = !rc.ti.hideCursor.isEmpty) :
     CfgB c rc :=
-  { rwOk := hrw, rwB := hrwB, pay := hp, noCorner := hpl, fx := xl_capsFx c hx hd hfit hh }
+  { rwOk := hrw, rwB := hrwB, pay := hp, noCorner := hpl, fx := xl_capsFx c (capsOk_of_xl hx) hd hfit hh }
 
 /-- the draw configuration of a terminal description in a UTF-8 locale with the regenerated width table, as the driver
 builds it (Driver/Draw.lean `mkCfgs`); `lg`/`wg`/`fz` = which repairs of drawCell / Fill the tree under test has -/
@@ -385,7 +395,7 @@ theorem cfgB_of_ti (ti : Terminfo) (hx : XtermLike ti = true) (lg wg fz tc : Boo
     (hwg : wg = true → lg = true) (hfit : FitOk (renderCfgOf ti tc fit fit0)) :
     CfgB (drawCfgOf ti lg wg fz) (renderCfgOf ti tc fit fit0) := by
   exact cfgB_of_xtermlike (c := drawCfgOf ti lg wg fz) (rc := renderCfgOf ti tc fit fit0) hx rfl hfit
-    rwClip_ok.1 rwClip_ok.2 (fun _ _ => rfl) ⟨(tiFacts hx).noCorner, hwg⟩ rfl
+    rwClip_ok.1 rwClip_ok.2 (fun _ _ => rfl) ⟨xl_noCorner hx, hwg⟩ rfl
 
 
 /-- `FitOk` for the configuration of an `XtermLike` entry whose colour fit is tcell's `FindColor` over the screen's palette
@@ -486,7 +496,7 @@ theorem cup_accepted_all (hx : XtermLike rc.ti = true) (ff : Bool) (x y : Nat)
     Tcell.Props.C09.accepts ff (Render.render rc (.goto x y)) = true := by
   unfold Tcell.Props.C09.accepts
   have g : Good (fun _ => 1) (Term.init { w := 4, h := 2, ffClears := ff }) := ⟨rfl, rfl, rfl, rfl, rfl, rfl, rfl, rfl⟩
-  rw [xl_goto_effect hx g x y hx1 hy1]
+  rw [xl_goto_effect (capsOk_of_xl hx) g x y hx1 hy1]
   rfl
 
 /-! ### the hypotheses are satisfiable -/
@@ -604,6 +614,40 @@ example : (bVt.e.grid.get 0 0).runes = [0x4e16] ∧
     (bVt.e.cx, bVt.e.cy) = (3, 1) ∧ bVt.e.modes.cursorVisible = true ∧ bVt.e.malformed = [] ∧
     Render.renderAll rcVt [.goto 0 0, .setPen stVt] = [27,91,49,59,49,72, 27,91,109,15, 27,91,49,109, 27,91,52,109, 27,91,55,109] := by
   decide +kernel
+
+/-! ### the corner trick at the level of bytes: cygwin -/
+
+set_option maxRecDepth 100000 in
+/-- of the four corner-trick entries, cygwin is the one all of whose strings are in the class (`CapsOk`); its `ich1` is `CSI @` -/
+theorem db_corner_caps : (Gen.db.all fun e => (CapsOk e && !XtermLike e) == (e.name == "cygwin")) = true ∧
+    Gen.e05.name = "cygwin" ∧ CapsOk Gen.e05 = true ∧ Tcell.Spec.TermCaps.stripPadding Gen.e05.insertChar = [27, 91, 64] := by
+  decide +kernel
+
+/-- the corner trick for the configuration the driver builds from a terminal description whose strings are in the class -/
+theorem ti_corner_trick_bytes (ti : Terminfo) (hx : CapsOk ti = true)
+    (hi : Tcell.Spec.TermCaps.stripPadding ti.insertChar = [27, 91, 64]) (lg wg fz tc : Bool) (fit fit0 : Nat → Nat)
+    (hfit : FitOk (renderCfgOf ti tc fit fit0)) : CornerTrickFx (drawCfgOf ti lg wg fz) (renderCfgOf ti tc fit fit0) :=
+  xl_corner_trick_bytes (dc := drawCfgOf ti lg wg fz) (rc := renderCfgOf ti tc fit fit0) rwClip_ok.2 hx rfl hfit rfl hi
+
+/-- **the first half of the bottom-right corner trick on cygwin, at the level of bytes**, with no hypothesis about the terminal
+description: from any emulator state that represents the abstract terminal, `goto (w-2, y); setPen s; put glyph; goto (w-2, y);
+ich1` puts the glyph with its rendition into the last column; the cursor never enters the last column (no pending wrap) -/
+theorem cygwin_corner_bytes (lg wg fz tc : Bool) (fit fit0 : Nat → Nat) (hfit : FitOk (renderCfgOf Gen.e05 tc fit fit0)) :
+    CornerTrickFx (drawCfgOf Gen.e05 lg wg fz) (renderCfgOf Gen.e05 tc fit fit0) :=
+  ti_corner_trick_bytes Gen.e05 db_corner_caps.2.2.1 db_corner_caps.2.2.2 lg wg fz tc fit fit0 hfit
+
+/-- … and the whole trick as the model performs it (Show on a 4×2 cygwin screen with `x` set in the bottom-right cell and `a`
+left of it): the emulator shows both, the cursor ends at home, nothing scrolled (row 0 still blank), no complaint -/
+def rcCyg : RenderCfg := renderCfgOf Gen.e05 false (fun _ => 2^32) (fun _ => 2^32)
+def dcCyg : DrawCfg := drawCfgOf Gen.e05 true false true
+def bCyg : BWorld :=
+  (after dcCyg rcCyg 4 2 e0Demo [.setContent 2 1 0x61 [] {}, .setContent 3 1 0x78 [] { attrs := 1 }]).step dcCyg rcCyg .show
+
+set_option maxRecDepth 100000 in
+example : dcCyg.cornerTrick = true ∧
+    (bCyg.e.grid.get 3 1).runes = [0x78] ∧ (bCyg.e.grid.get 3 1).pen = { bold := true } ∧ (bCyg.e.grid.get 3 1).garbage = false ∧
+    (bCyg.e.grid.get 2 1).runes = [0x61] ∧ (bCyg.e.grid.get 2 1).pen = {} ∧ (bCyg.e.grid.get 2 1).garbage = false ∧
+    (bCyg.e.grid.get 0 0).runes = [32] ∧ bCyg.e.pendingWrap = false ∧ bCyg.e.malformed = [] := by decide +kernel
 
 /-- aixterm: `op` (`CSI 32 m CSI 40 m`) sets green on black, and `penOf` says so: a style with `ColorReset` as foreground -/
 def rcAix : RenderCfg := renderCfgOf Gen.e00 false (fun _ => 2^32) (fun _ => 2^32)
